@@ -335,3 +335,110 @@ Proof.
   exact (array_message_reads_tl_z o zf zd addr ty elems text w Hz Ha Hg').
 Qed.
 End ArrMsg.
+
+(* ------------------------------------------------------------------------- *)
+(* a message with ONE value (the line of a scalar port).  Four values or fewer *)
+(* are never compressed (rtosc_convert_to_range: size < 5), no range tail can  *)
+(* follow, so nothing is asked about dots: every value whose token C10 reads   *)
+(* back - good_val (strings and chars with '.' included), bare symbols, blobs, *)
+(* and with the lossless option every finite float / double, both zeroes.      *)
+Section OneMsg.
+Variables dec2f dec2d : list Z -> Z.
+
+Definition good1 (o : popts) (v : av) : Prop := good_val v \/ goodx v \/ (lossless o = true /\ goodfin v).
+
+Lemma good1_scalar o v : good1 o v -> scalar v.
+Proof.
+  intros [H|[H|[_ H]]]; destruct v; cbn in H; try contradiction; exact I.
+Qed.
+
+Lemma good1_tok o v cols t w c : good1 o v -> print_scalar o v cols = Some (t, w, c) -> tokof dec2f dec2d v t.
+Proof.
+  intros [Hg|[Hg|[Hl Hg]]] Hp.
+  - exact (proj1 (scalar_tok dec2f dec2d o v cols t w c Hg Hp)).
+  - refine (proj1 (goodc_tok dec2f dec2d o 0 0 v cols t w c _ Hp)). right; left; exact Hg.
+  - destruct v; cbn [goodfin] in Hg; try contradiction.
+    + match type of Hg with (0 <= ?b < _) /\ _ =>
+        refine (proj1 (goodc_tok dec2f dec2d o (if b =? 0 then 2 ^ 31 else 0) 0 _ cols t w c _ Hp));
+        right; right; (split; [exact Hl|]); cbn [goodfl]; destruct Hg as [Hb Hf]; (split; [exact Hb|]); (split; [exact Hf|]);
+        destruct (b =? 0) eqn:E; lia end.
+    + match type of Hg with (0 <= ?b < _) /\ _ =>
+        refine (proj1 (goodc_tok dec2f dec2d o 0 (if b =? 0 then 2 ^ 63 else 0) _ cols t w c _ Hp));
+        right; right; (split; [exact Hl|]); cbn [goodfl]; destruct Hg as [Hb Hf]; (split; [exact Hb|]); (split; [exact Hf|]);
+        destruct (b =? 0) eqn:E; lia end.
+Qed.
+
+Lemma print_message_one o addr v text w : scalar v ->
+  print_message o addr [v] 0 = Some (text, w) ->
+  exists sepz t w' c, print_scalar o v (0 + (len addr + 1)) = Some (t, w', c) /\ text = addr ++ sepz ++ t /\
+                      (sepz = [32] \/ sepz = nl4).
+Proof.
+  intros Hs Hp. unfold print_message in Hp. cbn [length] in Hp. cbn [print_vals_loop] in Hp.
+  change (Z.of_nat 1 <=? 0) with false in Hp. cbv iota in Hp.
+  replace (convert_to_range o [v] (Z.of_nat 1 - 0)) with CNo in Hp by reflexivity.
+  rewrite (print_arg_val_top_scalar o v [] _ None true Hs), (print_arg_val_scalar o v [] _ None Hs) in Hp.
+  destruct (print_scalar o v (0 + (len addr + 1))) as [[[t w'] c]|] eqn:E; [|discriminate].
+  rewrite (next_arg_offset_scalar v [] Hs) in Hp.
+  destruct (if breaks_itself (av_type v) then _ else _) as [[brk_ cols2] awtl2].
+  rewrite orb_false_r, andb_false_r in Hp.
+  change (0 + 1 <? Z.of_nat 1) with false in Hp. cbv iota in Hp.
+  change (Z.of_nat 1 <=? 0 + 1) with true in Hp. cbv iota in Hp.
+  change (Z.of_nat 1 =? 0) with false in Hp. cbv iota in Hp. inversion Hp; subst.
+  exists (if brk_ then nl4 else [32]), t, w', c. split; [reflexivity|]. split; [reflexivity|].
+  destruct brk_; [right|left]; reflexivity.
+Qed.
+
+Theorem one_message_reads_tl o addr v text w :
+  good_addr addr -> good1 o v ->
+  print_message o addr [v] 0 = Some (text, w) ->
+  (exists sfx, text = addr ++ sfx) /\
+  forall tl, tail_ok tl ->
+    count_printed_arg_vals_of_msg dec2f dec2d (text ++ 10 :: tl) = Ok (true, 1) /\
+    scan_message dec2f dec2d (text ++ 10 :: tl) 1 = Ok (addr, [v], tl).
+Proof.
+  intros [[ar Ea] Hns] Hg Hp.
+  pose proof (good1_scalar o v Hg) as Hsc.
+  destruct (print_message_one o addr v text w Hsc Hp) as (sepz & t & w' & c & Eps & -> & Hsepz).
+  pose proof (good1_tok o v _ t w' c Hg Eps) as (Hrd & (c0 & r0 & Et & Hc0) & _).
+  split; [eexists; reflexivity|]. intros tl Htl.
+  assert (Hsk : forall tail f, skip_comments_ws f (addr ++ tail) = addr ++ tail)
+    by (intros; rewrite Ea; cbn [app]; apply skip_comments_ws_no; lia).
+  assert (Hhd : forall tail, hd0 (addr ++ tail) = 47) by (intros; rewrite Ea; reflexivity).
+  assert (Hnw : forall tail, skip_ws (addr ++ tail) = addr ++ tail)
+    by (intros; apply skip_ws_nonspace; rewrite Hhd; reflexivity).
+  assert (HsepA : Forall (fun c => isspace c = true) sepz) by (destruct Hsepz as [->| ->]; repeat constructor).
+  set (X := t ++ 10 :: tl).
+  assert (Etxt : (addr ++ sepz ++ t) ++ 10 :: tl = addr ++ sepz ++ X) by (unfold X; now rewrite <- !app_assoc).
+  rewrite Etxt. clear Etxt.
+  assert (Hsp : sepz ++ X = [] \/ isspace (hd0 (sepz ++ X)) = true) by (right; destruct Hsepz as [->| ->]; reflexivity).
+  destruct (dropwhile_nonspace addr (sepz ++ X) Hns Hsp) as [Hd Ht].
+  destruct Hc0 as (H0 & H47 & H37 & Hspc & H46 & H40).
+  assert (HhX : hd0 X = c0) by (unfold X; rewrite Et; reflexivity).
+  assert (Hws : skip_ws (sepz ++ X) = X) by (apply skip_ws_sep; [exact HsepA|rewrite HhX; exact Hspc]).
+  destruct (Hrd (10 :: tl) (rest_ok_nl tl Htl)) as [Hskip Hscan].
+  assert (HlX : length X = S (length r0 + S (length tl)))
+    by (unfold X; rewrite Et; cbn [length app]; rewrite app_length; cbn [length]; lia).
+  unfold count_printed_arg_vals_of_msg, scan_message.
+  rewrite !Hnw, !Hsk, !Hhd. cbn [Z.eqb Pos.eqb negb]. rewrite Hd, Ht, Hws.
+  split.
+  - unfold count_printed_arg_vals. rewrite Hws.
+    replace (skip_comments_ws (S (length X)) X) with X
+      by (unfold X; rewrite Et; symmetry; apply skip_comments_ws_no; assumption).
+    cbn [count_loop]. rewrite HhX. replace ((c0 =? 0) || (c0 =? 47)) with false by lia.
+    rewrite HlX. unfold X. rewrite Hskip. rewrite (skip_ws_tail tl Htl).
+    destruct (length (sepz ++ t ++ 10 :: tl)) eqn:El.
+    { exfalso. rewrite !app_length in El. cbn [length] in El. destruct Hsepz as [->| ->]; cbn in El; lia. }
+    destruct Htl as [->|[r1 ->]].
+    + cbn [hd0 at_ nth Z.eqb negb andb count_loop orb]. reflexivity.
+    + rewrite hd0_cons. replace (negb (47 =? 0) && negb (isspace 47)) with true by reflexivity.
+      rewrite skip_comments_ws_no by lia. cbn [count_loop]. rewrite hd0_cons.
+      replace ((47 =? 0) || (47 =? 47)) with true by reflexivity. reflexivity.
+  - unfold scan_arg_vals. change (Z.to_nat 1) with 1%nat.
+    remember 1%nat as f2 eqn:Ef2. cbn [scan_loop]. change (1 <=? 0) with false. cbv iota.
+    rewrite HlX. unfold X. rewrite Hscan.
+    cbn [length]. rewrite (skip_ws_comments_tail _ tl Htl).
+    subst f2. cbn [scan_loop app].
+    replace (slots_offset [v]) with 1 by (destruct v; cbn in Hsc; try contradiction; reflexivity).
+    reflexivity.
+Qed.
+End OneMsg.
